@@ -322,9 +322,26 @@ def grep_gate(paths) -> list[str]:
 
 
 def parse_assumptions(out: str) -> list[str]:
-    res = []
-    for m in re.finditer(r"(Closed under the global context|Axioms:\n(?:.+\n?)+?)(?=\n\S|\Z)", out):
-        res.append(re.sub(r"\s+", " ", m.group(1)).strip())
+    """every `Print Assumptions` output in coqc's stdout: either the closed-context sentence or an `Axioms:` block"""
+    res, cur = [], None
+    for line in out.splitlines():
+        if line.startswith("Closed under the global context"):
+            if cur is not None:
+                res.append(" ".join(cur))
+                cur = None
+            res.append("Closed under the global context")
+        elif line.startswith("Axioms:"):
+            if cur is not None:
+                res.append(" ".join(cur))
+            cur = ["Axioms:"]
+        elif cur is not None:
+            if line.strip() == "" or (not line.startswith(" ") and " : " not in line and not line.strip().startswith(":")):
+                res.append(" ".join(cur))
+                cur = None
+            else:
+                cur.append(line.strip())
+    if cur is not None:
+        res.append(" ".join(cur))
     return res
 
 
